@@ -1,5 +1,5 @@
-\* C14 design-level check, universe B (thorough): best-of-two-trials selection; soft r=2, movable hard square,
-\* fixed square, seeds on the even grid, two steps per dimension.
+\* C14 design-level check, universe R (object lifecycle): soft r=2, movable hard square, fixed square on an 8x8 die, one
+\* trial, one step per dimension, the object is placed TWICE (Again): the invariants hold for each placement.
 SPECIFICATION Spec
 CONSTANTS
   HalfSet <- HalfA
@@ -7,11 +7,11 @@ CONSTANTS
   AreaProfiles <- AreaB
   Graphs = {"path"}
   FixSet <- FixA
-  TrialSet = {2}
-  MaxIter = 2
-  GS = 2
+  TrialSet = {1}
+  MaxIter = 1
+  GS = 4
   G = 2
-  Rounds = 1
+  Rounds = 2
   TOL = 0
   EMIT = FALSE
 INVARIANT TemplatesOnLattice
